@@ -137,16 +137,23 @@ fn pi_point() {
         let want_a = p != al && p != ar;
         let want_b = p != bl && p != br;
         assert!(nreq == want_a as usize + want_b as usize, "exactly the segments that contain the point in their interior are divided");
+        // the requests, in either order
+        let (ia, ib) = (Rc::as_ptr(&sa.l) as *const (), Rc::as_ptr(&sb.l) as *const ());
+        let mut seen_a = false;
+        let mut seen_b = false;
         let mut k = 0;
-        if want_a {
+        while k < nreq && k < 2 {
             let rq = unsafe { REQS[k] };
-            assert!(rq.seg == Rc::as_ptr(&sa.l) as *const () && rq.x == p.x && rq.y == p.y, "the first segment is divided at the intersection point");
+            assert!(rq.x == p.x && rq.y == p.y, "every division is made at the one intersection point");
+            assert!((rq.seg == ia && !seen_a) || (rq.seg == ib && !seen_b), "each segment is divided at most once");
+            if rq.seg == ia {
+                seen_a = true;
+            } else {
+                seen_b = true;
+            }
             k += 1;
         }
-        if want_b {
-            let rq = unsafe { REQS[k] };
-            assert!(rq.seg == Rc::as_ptr(&sb.l) as *const () && rq.x == p.x && rq.y == p.y, "the second segment is divided at the same intersection point");
-        }
+        assert!(seen_a == want_a && seen_b == want_b, "a segment is divided iff the point is not one of its endpoints");
     }
     assert!(sa.l.get_edge_type() == EdgeType::Normal && sb.l.get_edge_type() == EdgeType::Normal, "a point intersection does not type the edges");
     kani::cover!(!share_end && hit.is_none(), "interior crossing: both divided");
